@@ -102,7 +102,16 @@ pub fn run(ctx: &Ctx, rep: &mut Report) {
                 format!("(x => [{}!, {}.k, {}[0], {}(1), -{}, {} ^ 2, x ?? {}] via (e => e))", v, v, v, v, v, v, v)
             }
         };
-        let src = format!("{}\nfun = {}\nfun", prelude.join("\n"), fsrc);
+        // every fourth program: the function is made by a factory whose parameter it captures and is
+        // then stored under the very name of that captured variable
+        let own_name = if i % 4 == 3 { sc.vars.iter().find(|(n, t)| *t == Ty::Num && fsrc.contains(n.as_str())).map(|(n, _)| n.clone()) } else { None };
+        let src = match &own_name {
+            Some(v) => {
+                let kept: Vec<String> = prelude.iter().filter(|l| !l.starts_with(&format!("{} = ", v))).cloned().collect();
+                format!("{}\nmk = ({}) => {}\n{} = mk(3)\n{}", kept.join("\n"), v, fsrc, v, v)
+            }
+            None => format!("{}\nfun = {}\nfun", prelude.join("\n"), fsrc),
+        };
         let stmts = match statements(&src) { Ok(s) => s, Err(_) => { rep.count("source-rejected"); continue; } };
         let sess = run_real(&stmts, None, &src);
         let f = match sess.raw.last() { Some(Ok(Ok(v @ Value::Lambda(_)))) => *v, _ => { rep.count("not-a-function"); continue; } };
@@ -195,6 +204,8 @@ pub fn run(ctx: &Ctx, rep: &mut Report) {
         ("k = 2\nfun = (a, b) => ([a, b] where (v => v > 1) via (v => v * k) into sum)\nfun", vec![1.0, 5.0]),
         ("fun = x => ([x] via (q => q + 1) or false)\nfun", vec![1.0]),
         ("g = x => ([x] via (t => t + 1))\nfun = y => g(y)\nfun", vec![5.0]),
+        ("make = (scale) => (v) => v * scale\nscale = make(3)\nscale", vec![5.0]),
+        ("make = (k) => do {\n  inner = (v) => v + k\n  return inner\n}\nk = make(2)\nk", vec![5.0]),
         ("fs = [x => (x into (q => q * 2))]\nfun = y => fs[0](y)\nfun", vec![4.0]),
         ("r = {k: x => ([x, 0] where (q => q > 0))}\nfun = y => r.k(y)\nfun", vec![4.0]),
         ("g = x => ([x] via (t => t + 1))\nh = y => g(y) into sum\nfun = z => h(z)\nfun", vec![5.0]),
